@@ -13,6 +13,11 @@ def main():
     elif p.get("replay_kind") == "pair" and "rename_back" in p:
         from checks.sys_checks import replay_pair
         still = replay_pair(p)
+    elif p.get("replay_kind") == "latin":
+        from checks.sys_checks import _latin_eval
+        r = _latin_eval((tuple(p["sizes"]), p["strategy"], 12))
+        print("native:", {k: v for k, v in r.items() if k != "bad"}, (r.get("bad") or [[None]])[0][0])
+        still = bool(r.get("n_bad")) or "exception" in r
     elif p.get("replay_kind") == "pair" and "left" in p and "right" in p:
         from checks.sys_checks import replay_equiv
         still = replay_equiv(p)
